@@ -8,6 +8,9 @@
 // write byte-identical to the first.  Correspondence: the line
 //     ok <accessors> <written document, re-parsed by the harness> <same|err|accessors after>
 // must be what the Lean model (BufModel.Config) computes from the structured document alone.
+// plugins.go: the `plugins:` section of buf.yaml accessor by accessor (Type, Name, Ref incl. label /
+// commit, Args, Options with value types) against the document, over read/write/read and against
+// the written document, + a stratified family of plugin shapes x option value types.
 // Section D (gen.go): buf.gen.yaml.  Section E (migrate.go): `buf config migrate` on generated
 // v1/v1beta1 workspaces on disk: images, lint and breaking results before/after.
 // Section F (migroot, this file): the migrator's roots/excludes -> module path/excludes
@@ -564,26 +567,13 @@ func genPlugins(r *hx.Rand) []gPlugin {
 	}
 	var out []gPlugin
 	for i, n := 0, 1+r.Intn(3); i < n; i++ {
-		p := gPlugin{}
-		switch r.Intn(4) {
-		case 0:
-			p.Path = []string{hx.Pick(r, []string{"buf-plugin-foo", "./bin/check", "plugins/lint"})}
-		case 1:
-			p.Path = []string{hx.Pick(r, []string{"plugin.wasm", "./plugins/x.wasm"})}
-		case 2:
-			p.Path = []string{hx.Pick(r, []string{"buf.build/acme/plugin", "buf.build/acme/plugin:v1", "example.com/org/check"})}
-			p.IsRef = true
-		default:
-			p.Path = []string{"buf-plugin-bar", "--flag", "value"}
-		}
-		if r.Chance(1, 3) && len(p.Path) == 1 {
-			p.Path = append(p.Path, "--x", "1")
-		}
+		// every plugin shape (plugins.go): local bare / relative / absolute, local Wasm, remote
+		// unpinned / pinned by label / pinned by commit, each with or without args
+		p := mkPlugin(r, hx.Pick(r, pluginShapes), r.Chance(1, 3))
 		if r.Chance(1, 2) {
 			p.Options = map[string]any{}
 			for j, m := 0, 1+r.Intn(3); j < m; j++ {
-				k := hx.Pick(r, []string{"timestamp_suffix", "max", "strict", "ratio", "name"})
-				p.Options[k] = hx.Pick(r, []any{"_time", 3, true, 1.5, "7", "a b"})
+				p.Options[hx.Pick(r, pluginOptionKeys)] = hx.Pick(r, pluginOptionValues)
 			}
 			if r.Chance(1, 20) {
 				p.Options["nullopt"] = nil
@@ -787,7 +777,10 @@ func yamlCase(run *hx.Run, idx int, ver string, input nd.Node, data []byte, pars
 		third = "err"
 		failC(run, hx.OracleFailure{Class: "yaml-reread-error", What: "the written buf.yaml is rejected by the reader: " + err.Error(),
 			Input: map[string]string{"document": string(data), "written": string(w1)}, Replay: replay})
+		pluginOracle(run, data, w1, f1, nil, replay)
 	} else {
+		// plugins: section, accessor by accessor (Ref incl. label/commit, option value types)
+		pluginOracle(run, data, w1, f1, f2, replay)
 		c2 := canonYAML(f2)
 		if c2.String() != c1.String() {
 			third = c2.String()
@@ -870,6 +863,8 @@ func main() {
 	section("runCorpus")
 	runYAML(run, r.Fork(1), run.N(4000, 40000))
 	section("runYAML")
+	runPluginFamily(run, r.Fork(7))
+	section("runPluginFamily")
 	runWork(run, r.Fork(2), run.N(600, 8000))
 	section("runWork")
 	runLock(run, r.Fork(3), run.N(800, 10000))
